@@ -87,7 +87,7 @@ impl Prop for C05 {
         Some(("program_cc", 20_000, 1536))
     }
     fn rule(&self) -> &'static str {
-        "sessions from the typed program generator with call/cc productions (escape, normal return, storing k in a global, counter-guarded re-entry 0-3 times from the same form, procedures, loops, for-each callbacks and later top-level forms), each run in the reference interpreter and three VMs. Non-trivial: in the reference run a continuation is re-entered after its call/cc returned with at least one already-evaluated operand pending at capture, or is invoked from a later top-level form; distinct by program text."
+        "sessions from the typed program generator with call/cc productions (escape, normal return, storing k in a global, counter-guarded re-entry 0-3 times from the same form, procedures, loops, for-each callbacks and later top-level forms), each run in the reference interpreter and four VMs (fresh, second fresh, polluted, and one with collections forced at pseudo-random instructions and after every form). Non-trivial: in the reference run a continuation is re-entered after its call/cc returned with at least one already-evaluated operand pending at capture, or is invoked from a later top-level form; distinct by program text."
     }
     fn assumptions(&self) -> Vec<&'static str> {
         vec![
